@@ -199,14 +199,14 @@ def context_bombs():
     return out
 
 
-def run_tools(ctx, items, q):
+def run_tools(ctx, items, q, extra_streams=()):
     """The shipped listers are NAL walkers too: run the built binaries on Annex B streams (the stream inputs and the
     context sequences converted to start-code form); a Go panic (exit 2 with a goroutine dump) or a hang is a violation."""
     import re
     import subprocess
     nallister = ctx.build_repo_binary("./cmd/mp4ff-nallister", "mp4ff-nallister")
     pslister = ctx.build_repo_binary("./cmd/mp4ff-pslister", "mp4ff-pslister")
-    streams = []
+    streams = list(extra_streams)
     for ident, kind, b in items:
         if kind == "stream":
             streams.append((ident, b))
@@ -220,8 +220,41 @@ def run_tools(ctx, items, q):
                 pos += 4 + n
             if out:
                 streams.append((ident, out))
-    step = max(1, len(streams) // (400 if q else 4000))
-    streams = [s for i, s in enumerate(streams) if i % step == ctx.seed % step]
+    # one stream per structural signature (leading bytes, then per unit: start code length, unit length class, first
+    # byte), plus a seed-dependent sample of the rest: adjacent start codes, header-only units etc. are never sampled away
+    def signature(b):
+        sig, pos, n = [], 0, len(b)
+        starts = []
+        while pos + 3 <= n:
+            if b[pos] == 0 and b[pos + 1] == 0 and b[pos + 2] == 1:
+                starts.append(pos)
+                pos += 3
+            else:
+                pos += 1
+        sig.append(min(starts[0], 2) if starts else -1)
+        for k, st in enumerate(starts[:4]):
+            end = starts[k + 1] if k + 1 < len(starts) else n
+            zeros = 0
+            while st - zeros - 1 >= 0 and b[st - zeros - 1] == 0 and zeros < 2:
+                zeros += 1
+            body = b[st + 3:end]
+            sig.append((zeros, min(len(body.rstrip(b"\x00")), 3), body[0] if body else -1))
+        sig.append(min(len(starts), 5))
+        return tuple(sig)
+    bysig = {}
+    for ident, b in streams:
+        bysig.setdefault(signature(b), []).append((ident, b))
+    chosen = [v[ctx.seed % len(v)] for _, v in sorted(bysig.items(), key=lambda kv: str(kv[0]))]
+    cap = 1500 if q else 6000
+    if len(chosen) > cap:
+        step = len(chosen) // cap + 1
+        # signatures with an empty or header-only unit always stay
+        chosen = [c for i, (c, sg) in enumerate(zip(chosen, sorted(bysig, key=str)))
+                  if i % step == ctx.seed % step or any(isinstance(x, tuple) and x[1] <= 2 for x in sg)]
+    step = max(1, len(streams) // (300 if q else 3000))
+    seen = set(id(c[1]) for c in chosen)
+    streams = chosen + [s for i, s in enumerate(streams) if i % step == ctx.seed % step and id(s[1]) not in seen]
+    signatures = len(bysig)
     runs = 0
     path = os.path.join(ctx.scratch, "tool_in.bin")
     for ident, b in streams:
@@ -243,7 +276,7 @@ def run_tools(ctx, items, q):
                 ctx.report("tool-panic/%s/%s" % (name, where), "%s panics: %s" % (name, p.stderr.splitlines()[0][:200]), {"id": ident, "hex": b.hex()[:400]})
     if runs < 200:
         raise core.Machinery("only %d tool runs" % runs)
-    return {"inputs": len(streams), "runs": runs}
+    return {"inputs": len(streams), "runs": runs, "signatures": signatures}
 
 
 def run(ctx):
@@ -259,11 +292,14 @@ def run(ctx):
     items += [("H1/%d" % i, "sample", b) for i, b in enumerate(h1)]
     # H2: Annex B windows and unit streams (AnnexB.tla), plus their prefixes
     r = ctx.tlc_ok("AnnexB", "AnnexB_windows_quick.cfg", workers=12, timeout=3000, heap="12g")
+    all_windows = []
     for i, e in enumerate(r.exported):
+        b = bytes(e["stream"])
         if i % (40 if q else 8) == ctx.seed % (40 if q else 8):
-            b = bytes(e["stream"])
             items.append(("H2/win%d" % i, "stream", b))
             items.append(("H2/win%d/cut" % i, "stream", b[:len(b) - 2]))
+        else:
+            all_windows.append(("H2/win%d" % i, b))      # for the tool runs, which select by structural signature
     r = ctx.tlc_ok("AnnexB", "AnnexB_units_avc_quick.cfg", workers=12, timeout=3000, heap="12g")
     for i, e in enumerate(r.exported):
         if i % (400 if q else 60) == ctx.seed % (400 if q else 60):
@@ -322,7 +358,7 @@ def run(ctx):
         hvcc += bytes([0x80 | ty, 0, 1]) + len(n).to_bytes(2, "big") + n
     items += rc.mutate(hvcc, "config", "H5/hvcC", dense=200, first=60)
     items += rc.mutate(bytes.fromhex("81000c000a0b0000000442abbfc3714a"), "config", "H5/av1C", dense=64, first=16)
-    tool_stats = run_tools(ctx, items, q)
+    tool_stats = run_tools(ctx, items, q, all_windows)
     trace, fatals = rc.monitor_sharded(ctx, "c16", items, shards=8)
     ctx.cov["evaluations"] = len(items)
     ctx.cov["distinct_nontrivial"] = len(set(b for _, _, b in items))
@@ -337,7 +373,7 @@ def run(ctx):
                          "H5": "ASC, ADTS, avcC, hvcC, av1C: every prefix, head substitutions",
                          "H6": "NAL unit sequences with their own context (SPS, PPS, then slice header / SEI parsed against them): count and range bombs placed in the parameter sets "
                                "(reference index counts, slice group change rate, HRD cpb counts, sub-picture HRD flags) and the (sps, pps, slice) triples of AvcSyntax.tla / HevcSyntax.tla with mutations",
-                         "tools": "the built mp4ff-nallister (-annexb, avc / hevc, -sei 2 -ps) and mp4ff-pslister on %d Annex B streams: %d runs, exit by panic or no return within 10 s is a violation" % (tool_stats["inputs"], tool_stats["runs"]),
+                         "tools": "the built mp4ff-nallister (-annexb, avc / hevc, -sei 2 -ps) and mp4ff-pslister on %d Annex B streams (one per structural signature - leading bytes, start code lengths, unit length classes 0/1/2/3+, first bytes; %d signatures - plus a sample of the rest): %d runs, exit by panic or no return within 10 s is a violation" % (tool_stats["inputs"], tool_stats["signatures"], tool_stats["runs"]),
                          "budgets": "2 s + 20 us/byte wall, 16 MiB + 1024 x length allocated, worker under ulimit -v 8 GB", "fatal_worker_crashes": fatals}
     ctx.cov["rule"] = ("inputs = Robust.tla H1 grammar (exhaustive) + mutation operators applied to behaviours exported by the syntax specs; "
                        "each input is run through every entry point of its family in an isolated process under recover(); "
